@@ -26,9 +26,11 @@ import (
 // failLimited records a direct-oracle failure, at most 3 times per signature and run (the
 // orchestrator re-reads the whole op stream per recorded failure); further hits are counted.
 var failSeen = map[string]int{}
+var failTotal int
 
 func failLimited(c *Ctx, sig, detail string) {
 	failSeen[sig]++
+	failTotal++
 	c.Count("oraclefail:" + sig)
 	if failSeen[sig] <= 3 {
 		c.Fail(sig, detail)
